@@ -458,10 +458,6 @@ func TestC05(t *testing.T) {
 			c := &C05Multi{Shape: shape, Rev: rapid.IntRange(0, 4).Draw(rt, "rev") == 0}
 			for i := 0; i < nt; i++ {
 				lk := rapid.SampledFrom([]string{"contig", "lazyT", "sliced", "stepsliced", "materialized", "slicedT"}).Draw(rt, "lk")
-				if inF41(shape, lk) {
-					rec.Class("excluded:F41")
-					lk = "contig"
-				}
 				c.Ls = append(c.Ls, genLayoutKind(rt, lk, len(shape), fmt.Sprintf("l%d", i)))
 			}
 			return c
